@@ -1,5 +1,6 @@
 from __future__ import annotations
 
+import ast
 import logging
 import os
 import pathlib
@@ -16,6 +17,7 @@ from asttokens import LineNumbers
 
 from ._format import enforce_formatting
 from ._format import format_code
+from ._problems import raise_problem
 
 if sys.version_info >= (3, 10):
     from itertools import pairwise
@@ -203,7 +205,17 @@ class SourceFile:
         )
 
         if format_whole_file:
-            new_code = format_code(new_code, self.filename)
+            formatted_code = format_code(new_code, self.filename)
+            try:
+                ast.parse(formatted_code)
+            except SyntaxError:
+                # never replace a test file with something which is no python code
+                raise_problem(
+                    f"[b]The formatter returned invalid python code for {self.filename}.[/b]\n"
+                    "The code is written without formatting."
+                )
+            else:
+                new_code = formatted_code
 
         return new_code
 
